@@ -4,7 +4,7 @@ import dsl, tlc, loomrun, core, families
 
 
 def iter_cap(tier):
-    return 400_000 if tier == "quick" else 4_000_000
+    return 400_000 if tier == "quick" else 2_000_000
 
 
 def memory_model(ctx, want, progs=None, avoid=()):
